@@ -506,7 +506,9 @@ void getOffsetAndCount(const MultiTag &tag, const DataArray &array, const vector
                     if (!ofst) {
                         throw nix::OutOfBounds("util::offsetAndCount:An invalid range was encountered!");
                     }
-                    temp_offset[i] = *ofst;
+                    data_offset[dim_index] = *ofst;
+                } else {
+                    throw nix::OutOfBounds("util::offsetAndCount:An invalid range was encountered!");
                 }
             }   
         }
